@@ -29,7 +29,7 @@ func c16Prop(st *CaseStats, fam int) func(t *rapid.T) {
 		if fam == FamCounts && sc.Norm.ID == 3 {
 			sc.Norm = normFns[0] // the extreme norm function is not defined for lengths beyond 2^32
 		}
-		if fam == FamBlocks || fam == FamWide || fam == FamCounts {
+		if fam == FamBlocks || fam == FamWide || fam == FamCounts || fam == FamHuge {
 			cfg.MaxIn = 2
 			depth = rapid.SampledFrom([]int{0, 1}).Draw(t, "depth")
 		}
@@ -144,4 +144,10 @@ func TestC16Counts(t *testing.T) {
 	st := NewStats("C16Counts", c16Rule)
 	defer st.Flush()
 	rapid.Check(t, c16Prop(st, FamCounts))
+}
+
+func TestC16Huge(t *testing.T) {
+	st := NewStats("C16Huge", c16Rule)
+	defer st.Flush()
+	rapid.Check(t, c16Prop(st, FamHuge))
 }
